@@ -4,7 +4,7 @@ d=$1; shift
 cd /repo || exit 2
 if [ -n "$(git status --porcelain --untracked-files=no)" ]; then echo "/repo not clean"; exit 2; fi
 git apply "$d/patch.diff" || { echo "patch does not apply"; exit 2; }
-trap 'git -C /repo checkout -- . ' EXIT
+trap 'git -C /repo checkout -- . ; /verif/setup.sh >/dev/null 2>&1' EXIT
 cd /verif
 for c in "$@"; do
   out=$(VERIF_SEED=${VERIF_SEED:-1} ./check "$c" --tier ${TIER:-quick} 2>&1)
